@@ -750,6 +750,14 @@ func genC06(r *simrt.Rand, tier string, idx uint64) *Plan {
 		}
 		p.Clients = append(p.Clients, cp)
 	}
+	if (p.Codec == "code" || p.Codec == "pb") && r.Chance(1, 3) {
+		// a stream whose handler tries to push a message that cannot be encoded: an error on the
+		// server's write path that must not reach any ordinary call
+		conn := r.Intn(len(p.Conns))
+		push := 1 + r.Intn(3)
+		p.Streams = []StreamPlan{{Conn: conn, BadPush: true, Push: push, Echo: true}}
+		p.Clients = append(p.Clients, ClientPlan{Conn: conn, Ops: []Op{{Kind: "sleep", N: r.Intn(300)}, {Kind: "sopen"}, {Kind: "sread", N: push}, {Kind: "swrite", N: 1}, {Kind: "sread", N: 1}, {Kind: "sclose"}}})
+	}
 	return p
 }
 
